@@ -222,6 +222,25 @@ open ElaVerif.CoinbaseTotal in
 theorem C03_revertToDPOSCheck_unguarded_panics :
     revertToDPOSCheck false 0 [] = .panic ∧ revertToDPOSCheck false 1 [] = .panic := by decide
 
+/-! ## round 7: NextTurnDPOSInfo comparison helpers -/
+open ElaVerif.CoinbaseTotal in
+/-- `isNextArbitratorsSame` (after the fix) never indexes past either key list, for every payload and every next-arbiter list. -/
+theorem C03_nextSame_total (cr dpos : List Nat) (next : List NextArb) : nextSame true cr dpos next ≠ .panic :=
+  nextSame_total cr dpos next
+example : ElaVerif.CoinbaseTotal.nextSame true [1] [2] [⟨1, true, false⟩, ⟨2, false, false⟩] = .val true := by decide
+
+open ElaVerif.CoinbaseTotal in
+/-- `isNextArbitratorsSameV1` (after the fix) likewise. -/
+theorem C03_nextSameV1_total (cr dpos : List Nat) (next nextCRC : List (Nat × Bool)) :
+    nextSameV1 true cr dpos next nextCRC ≠ .panic := nextSameV1_total cr dpos next nextCRC
+
+open ElaVerif.CoinbaseTotal in
+/-- NEGATION (pre-fix code): all keys declared as DPoS keys while one next arbiter is a CRC arbiter (the sum of the
+    lengths is right); V1 with fewer CR keys than next CRC arbiters. -/
+theorem C03_nextSame_unguarded_panics :
+    nextSame false [] [1, 2] [⟨1, true, false⟩, ⟨2, false, false⟩] = .panic ∧
+    nextSameV1 false [] [1] [(1, true)] [(20, true)] = .panic := by decide
+
 /-! ## T-gen: the accesses and guards of the real functions are the ones the models were written against -/
 
 /-- opcode / prefix / size constants used by the models are the repository's. -/
@@ -258,11 +277,15 @@ theorem C03_gen_accesses :
     Gen.C03.coinbaseCheckTransactionOutput = C03Expected.coinbaseCheckTransactionOutput ∧
     Gen.C03.checkSchnorrWithdrawFromSidechain = C03Expected.checkSchnorrWithdrawFromSidechain ∧
     Gen.C03.checkBlockSanity = C03Expected.checkBlockSanity ∧
+    Gen.C03.isNextArbitratorsSame = C03Expected.isNextArbitratorsSame ∧
+    Gen.C03.isNextArbitratorsSameV1 = C03Expected.isNextArbitratorsSameV1 ∧
+    Gen.C03.maybeAcceptBlock = C03Expected.maybeAcceptBlock ∧
+    Gen.C03.connectBestChain = C03Expected.connectBestChain ∧
     Gen.C03.registerCRSpecialContextCheck = C03Expected.registerCRSpecialContextCheck ∧
     Gen.C03.checkCRCArbitratorsSignaturesTx = C03Expected.checkCRCArbitratorsSignaturesTx ∧
     Gen.C03.checkCRCArbitratorsSignaturesBc = C03Expected.checkCRCArbitratorsSignaturesBc ∧
     Gen.C03.returnDepositSpecialContextCheck = C03Expected.returnDepositSpecialContextCheck := by
-  refine ⟨rfl, rfl, rfl, rfl, rfl, rfl, rfl, rfl, rfl, rfl, rfl, rfl, rfl, rfl, rfl, rfl, rfl, rfl, rfl, rfl, rfl, rfl, rfl, rfl⟩
+  refine ⟨rfl, rfl, rfl, rfl, rfl, rfl, rfl, rfl, rfl, rfl, rfl, rfl, rfl, rfl, rfl, rfl, rfl, rfl, rfl, rfl, rfl, rfl, rfl, rfl, rfl, rfl, rfl, rfl⟩
 
 /-- **Systematic table.** For every per-type checker method of core/transaction (SanityCheck, ContextCheck,
     HeightVersionCheck, CheckTransactionSize/Input/Output/Fee, CheckAttributeProgram, CheckTransactionPayload,
